@@ -1,5 +1,6 @@
-// Harness for the properties that need the REAL arc process (L2): C05 (WAL crash
-// recovery), C04 (no payload crashes the server), C07 (backpressure / outages).
+// Harness for the auth area: C20 (permission decisions always reflect the current
+// RBAC state) and C21 (revoked, deleted or rotated token values stop
+// authenticating immediately).
 package main
 
 import (
@@ -15,10 +16,10 @@ func main() {
 	flag.String("replay", "", "replay file")
 	flag.Parse()
 	switch *prop {
-	case "C05":
-		vlib.Main("C05", "fault_enumeration", checkC05)
-	case "C04":
-		vlib.Main("C04", "exploration", checkC04)
+	case "C20":
+		vlib.Main("C20", "exploration", checkC20)
+	case "C21":
+		vlib.Main("C21", "exploration", checkC21)
 	default:
 		fmt.Println("unknown property", *prop)
 		os.Exit(2)
